@@ -13,6 +13,8 @@ from harness.refmodel import freeze
 S = load()
 
 PROPERTY = "C17"
+LEVEL_TEXT = 'Bounded-exhaustive over a 32-name collision alphabet up to width 3 (thorough 4) + random unicode names up to width 22 + rename/replace/append histories; atheris campaign in the thorough tier.'
+LEVEL_NOTE = 'Advertised accessors = dir(table) minus dir(Table()); exact spelling asserted only for unambiguous, unreserved bases.'
 DESIGN_REF = "DESIGN.md §5 C17"
 ENGINE = "world"
 TECHNIQUE = "bounded-exhaustive enumeration of column-name lists over a collision alphabet + Hypothesis-generated unicode name lists and rename/replace/append histories (model-based: the model tracks stored names); invariant re-checked after every step; atheris campaign on name lists in the thorough tier"
